@@ -63,8 +63,28 @@ theorem sdk_precedence_span_limits (m : SlMode) (o : List Int) (e : SlEnv) (ho :
 a given batch size is clamped to the queue size. -/
 theorem sdk_precedence_blrp (x : BlrpIn) : blrpOK x (newBatchConfig x) = true := L.sdk_precedence_blrp x
 
-/-- `blrp_config_safe`: every resolved value of the log batch processor is at least one, whatever the inputs. -/
+/-- `wrap64` is Go's int64 wrap-around: always in range, the identity on int64 values. -/
+theorem wrap64_range (x : Int) : -9223372036854775808 ≤ wrap64 x ∧ wrap64 x < 9223372036854775808 := by
+  unfold wrap64; omega
+
+theorem wrap64_id (x : Int) (h1 : -9223372036854775808 ≤ x) (h2 : x < 9223372036854775808) : wrap64 x = x := by
+  unfold wrap64; omega
+
+/-- milliseconds up to 9223372036854 (≈ 292 years) convert without overflow -/
+theorem mulMs_exact (n : Int) (h1 : -9223372036854 ≤ n) (h2 : n ≤ 9223372036854) : mulMs n = n * 1000000 := by
+  unfold mulMs msNs; exact wrap64_id _ (by omega) (by omega)
+
+/-- `blrp_config_safe`: every resolved value of the log batch processor — sizes AND durations after the int64
+wrap-around of `time.Duration(n) * time.Millisecond` — is at least one, for every option and every environment
+integer (in particular `time.NewTicker(interval)` never sees a non-positive interval: the second
+`clearLessThanOne` runs after the unit conversion). -/
 theorem blrp_config_safe (x : BlrpIn) : blrpSafe (newBatchConfig x) = true := L.blrp_config_safe x
+
+/-- the interval handed to `time.NewTicker` is positive, stated on its own (the clause the seeded change C20-2 breaks). -/
+theorem blrp_interval_positive (x : BlrpIn) : 1 ≤ (newBatchConfig x).i ∧ 1 ≤ (newBatchConfig x).t := by
+  have h := blrp_config_safe x
+  simp only [blrpSafe, Bool.and_eq_true, decide_eq_true_eq] at h
+  exact ⟨h.1.1.1.2, h.1.1.2⟩
 
 /-- … and a batch size that was given (valid option or valid variable) never exceeds the queue size. -/
 theorem blrp_batch_le_queue (x : BlrpIn) (v : Int) (h : batchGiven x.ob x.eb = some v) :
@@ -95,7 +115,7 @@ theorem first_int_specific_absent (a g : Env) (d : Int) (h : envInt a = .absent)
   cases envInt g <;> rfl
 
 /-- `invalid_ignored` (sdk/log `getenv`): an unparsable value behaves exactly like an unset variable. -/
-theorem invalid_ignored_blrp (s : Bytes) (k : Int) (o : Option Int) (h : atoi s = none) :
+theorem invalid_ignored_blrp (s : Bytes) (k : Int → Int) (o : Option Int) (h : atoi s = none) :
     getenvInt (some s) k o = getenvInt none k o := by
   unfold getenvInt
   cases o with
@@ -286,6 +306,24 @@ example : firstInt 128 [some [0x61], some [0x35]] = 128 := by decide
 example : newBatchConfig { oq := some 0, oi := none, ot := none, ob := none, obuf := some (-3), eq := some [0x35],
                            ei := none, et := none, eb := some [0x39] }
     = { q := 5, i := 1000000000, t := 30000000000, b := 5, buf := 1 } := by decide
+
+/-- OTEL_BLRP_SCHEDULE_DELAY=9223372036854775807 (wraps to −1 ms) and 9223372036855 (first overflowing value) are
+cleared after the conversion: the default interval is used -/
+example : (newBatchConfig { oq := none, oi := none, ot := none, ob := none, obuf := none, eq := none,
+                            ei := some [0x39, 0x32, 0x32, 0x33, 0x33, 0x37, 0x32, 0x30, 0x33, 0x36, 0x38, 0x35, 0x34, 0x37, 0x37, 0x35, 0x38, 0x30, 0x37],
+                            et := some [0x39, 0x32, 0x32, 0x33, 0x33, 0x37, 0x32, 0x30, 0x33, 0x36, 0x38, 0x35, 0x35], eb := none })
+    = { q := 2048, i := 1000000000, t := 30000000000, b := 512, buf := 1 } := by decide
+
+/-- 18446744073710 ms wraps back to a small positive duration (448384 ns), which is used as it is -/
+example : (newBatchConfig { oq := none, oi := none, ot := none, ob := none, obuf := none, eq := none,
+                            ei := some [0x31, 0x38, 0x34, 0x34, 0x36, 0x37, 0x34, 0x34, 0x30, 0x37, 0x33, 0x37, 0x31, 0x30],
+                            et := none, eb := none }).i = 448384 := by decide
+
+/-- the BSP takes a wrapped OTEL_BSP_SCHEDULE_DELAY verbatim: 9223372036855 ms becomes a negative BatchTimeout
+(a non-positive timer fires immediately: no panic) -/
+example : (newBSP { oq := none, ob := none, od := none, ot := none, eq := none, eb := none,
+                    ed := some [0x39, 0x32, 0x32, 0x33, 0x33, 0x37, 0x32, 0x30, 0x33, 0x36, 0x38, 0x35, 0x35], et := none }).d
+    = -9223372036854551616 := by decide
 
 /-- the three sources of the timeout for a log exporter: specific invalid, generic valid → generic wins -/
 example : (newConfig .lh exParse { exEnv with toS := some [0x61], toG := some [0x37] } []).timeout = 7000000 := by decide
